@@ -106,3 +106,9 @@ Definition model_passes (x : sx) : bool :=
   | None => false
   end.
 Definition entry_model_passes (x : sx) : sx := L [of_bool (model_passes x)].
+
+(* evidence (not proof) for the premise of prop_check_b64_sound, evaluated on random triples:
+   [a; b; c] with a <= b, all in [0,+inf] -> [plus64 a c <=? plus64 b c; c <=? plus64 a c] *)
+Definition entry_mono (x : sx) : sx :=
+  let a := as_Z (arg 0 x) in let b := as_Z (arg 1 x) in let c := as_Z (arg 2 x) in
+  L [of_bool (plus64 a c <=? plus64 b c); of_bool (c <=? plus64 a c)].
